@@ -289,6 +289,36 @@ def page_checks(out_dir: str, sample_every: int) -> list[tuple[str, str]]:
             out.append((f"placeholder:{page}", "a :laws: placeholder is left in the page"))
         else:
             out.append((f"placeholder:{page}", ""))
+    # own reading of the sources: every public assignment that is followed by a docstring is a
+    # documented member and must have its block, every documented function its signature
+    for page in sorted(have & set(exp)):
+        with open(exp[page], encoding="utf-8") as f:
+            tree = ast.parse(f.read())
+        with open(os.path.join(out_dir, page), encoding="utf-8") as f:
+            text = f.read()
+        body = tree.body
+        names, funcs = [], []
+        last = None
+        for st in body:
+            if isinstance(st, ast.Assign):
+                last = next((t.id for t in st.targets if isinstance(t, ast.Name)), None)
+            elif isinstance(st, ast.FunctionDef):
+                if ast.get_docstring(st) is not None and not st.name.startswith("_"):
+                    funcs.append(st.name)
+                last = None
+            elif isinstance(st, ast.Expr) and isinstance(st.value, ast.Constant) and isinstance(
+                    st.value.value, str) and last and st is not body[0]:
+                if not last.startswith("_") and last not in names:
+                    names.append(last)
+        missing = [n for n in names if f".. py:data:: {n}\n" not in text]
+        missingf = [n for n in funcs if f".. py:function:: {n}(" not in text]
+        order = [m.group(1) for m in re.finditer(r"\.\. py:data:: (\w+)\n", text)]
+        msg = ""
+        if missing or missingf:
+            msg = f"documented members without a block on the page: {missing + missingf}"
+        elif [n for n in order if n in names] != names:
+            msg = f"members appear in the order {order}, the source has {names}"
+        out.append((f"members:{page}", msg))
     # formulas and symbol tables, module by module
     pages = sorted(have & set(exp))
     for n, page in enumerate(pages):
@@ -328,6 +358,27 @@ def page_checks(out_dir: str, sample_every: int) -> list[tuple[str, str]]:
         except Exception as ex:
             out.append((f"symbols:{page}", f"module not importable: {type(ex).__name__}"))
             continue
+        # the formula on the page, read back with the code parser, has the value of the equation
+        # the *imported* module publishes (independent of how the generator obtained its source form)
+        from . import c17
+        import sympy as sp
+        for attr, value, kinds in members:
+            live = getattr(mod, attr, None)
+            if "SYMBOL" not in kinds or not isinstance(live, sp.Basic) or not isinstance(value,
+                    sp.Basic):
+                continue
+            mm = re.search(r"\.\. py:data:: " + re.escape(attr) + r"\n(.*?)(?=\n\.\. py:|\Z)", text,
+                re.S)
+            cm = re.search(r":code:`(.*?)`\n", mm.group(1), re.S) if mm else None
+            if not cm:
+                continue
+            try:
+                cls, viol = c17.catalogue_equation(modname, attr, live, text=cm.group(1))
+            except Exception as ex:
+                cls, viol = "structure", ""
+            out.append((f"formula-value:{page}:{attr}", "" if not viol else
+                f"the formula shown for {attr} does not have the value of the module's equation: "
+                f"{short(viol, 200)}"))
         for m in re.finditer(r"\.\. py:data:: (\w+)\n(.*?)(?=\n\.\. py:|\Z)", text, re.S):
             name, block = m.group(1), m.group(2)
             obj = getattr(mod, name, None)
